@@ -297,7 +297,7 @@ class ResourceLeakFixer(MetadataPreservingTransformer, NameAndAncestorResolution
     ) -> Optional[int]:
         last_index = None
         for name in named_targets:
-            accesses = self.find_accesses(name)
+            accesses = self._find_accesses_in_all_scopes(name)
             for node in (access.node for access in accesses):
                 last_index_for_node = (index + 1) + self._last_ancestor_index(
                     node, block.body[index + 1 :]
@@ -307,6 +307,19 @@ class ResourceLeakFixer(MetadataPreservingTransformer, NameAndAncestorResolution
                 ):
                     last_index = last_index_for_node
         return last_index
+
+    def _find_accesses_in_all_scopes(self, name):
+        """
+        Accesses of `name`, including those made from nested scopes (comprehensions,
+        lambdas, inner functions), which `find_accesses` does not report.
+        """
+        if not (scope := self.get_metadata(ScopeProvider, name, None)):
+            return set()
+        return {
+            access
+            for assignment in scope[name.value]
+            for access in assignment.references
+        } | set(self.find_accesses(name))
 
     def _last_ancestor_index(self, node, node_sequence) -> Optional[int]:
         last = None
